@@ -8,6 +8,8 @@ package main
 // (Model/Template.v) and compares the rendered text.
 
 import (
+	"bytes"
+	"io"
 	"fmt"
 	"os"
 	"path/filepath"
@@ -636,6 +638,21 @@ func runC16(cfg *runCfg) error {
 			continue
 		}
 		got := docParagraphTexts(doc)
+		if ci%3 == 0 {
+			// the rendered document as a file: what is read back from its saved bytes is the same text, blanks included
+			if data, e := doc.ToBytes(); e == nil {
+				if back, e := document.OpenFromMemory(io.NopCloser(bytes.NewReader(data))); e == nil && back != nil {
+					if again := docParagraphTexts(back); strings.Join(again, "\n") != strings.Join(got, "\n") {
+						failCount["saved_text"]++
+						if failCount["saved_text"] <= 4 {
+							res.OracleFailures = append(res.OracleFailures, OracleFailure{Clause: "rendered_text_saved", Class: "saved_text_differs",
+								Detail: fmt.Sprintf("template %q with %s renders %q; saved and opened again the document shows %q", tpl, d.coq(), strings.Join(got, "\n"), strings.Join(again, "\n")), CaseID: ci})
+						}
+					}
+					feats["rendered document saved and read back"]++
+				}
+			}
+		}
 		dirty := isDirty(d)
 		if dirty {
 			feats["case with directive-like values"]++
